@@ -44,12 +44,17 @@ func runC04(c *Ctx) {
 		var regs map[string][2]string // gtype -> (matching fn, domain matching fn)
 		var lastDec string
 		changed := false
+		// finding D15: with a domain matching function, DeleteLink in one domain also removes the link that a
+		// rule of a pattern domain (or of a matching concrete domain) still stands for; until the next rebuild
+		// the live links may then legitimately-known differ from a rebuild
+		d15Risk := false
 		cfg.Setup = append([]EOp{}, probes...)
 		cfg.AfterStep = func(c *Ctx, s *Sess, hist []EOp, obs string) {
 			if len(hist) == 1 {
 				regs = map[string][2]string{}
 				lastDec = ""
 				changed = false
+				d15Risk = false
 			}
 			last := hist[len(hist)-1]
 			switch last.Kind {
@@ -63,8 +68,16 @@ func runC04(c *Ctx) {
 				regs[last.PType] = r
 			case "setrm":
 				delete(regs, last.PType)
+				d15Risk = false
 			case "setmodel":
 				regs = map[string][2]string{}
+				d15Risk = false
+			case "load", "buildlinks", "clear":
+				d15Risk = false
+			case "rm", "rms", "upd", "upds", "rmf":
+				if last.Sec == "g" && regs[last.PType][1] != "" && obs == "true" {
+					d15Risk = true
+				}
 			}
 			// the fresh enforcer: same model, listed rules, same registered functions
 			fresh, err := casbin.NewEnforcer(ms.Build())
@@ -110,7 +123,10 @@ func runC04(c *Ctx) {
 				fmt.Fprintf(&a, "%v%v", x, e1 != nil)
 				fmt.Fprintf(&b, "%v%v", y, e2 != nil)
 			}
-			if wf && a.String() != b.String() {
+			if d15Risk {
+				c.Count("comparisons_skipped_finding_D15", 1)
+			}
+			if wf && !d15Risk && a.String() != b.String() {
 				c.Direct("a decision differs from that of a freshly constructed enforcer on the same listed rules and functions", fmt.Sprintf("%s: %s\nlive=%s fresh=%s", name, histText(hist), a.String(), b.String()))
 			}
 			if lastDec != "" && lastDec != a.String() {
